@@ -133,7 +133,10 @@ def run(ctx):
                    "pre[ranges]suffix, two-bracket words; ranges with boundary weights 9->10, 099->100, widths 1..30, "
                    "2^25+-1, 2^32+-1, 2^63, 2^64-1, adjacent/overlapping/repeated ranges, mixed widths; all separator "
                    "mixes) rendered to text, plus the valid subset of the biased-alphabet stream shared with C15, plus "
-                   "(thorough) all strings over {a,0,1,9,[,],-,,} up to length 6; expected = AST-level expansion "
+                   "(thorough) all strings over {a,0,1,9,[,],-,,} up to length 6; on the pdsh binary also LONG GROUPS "
+                   "(hundreds of disjoint numbers / small ranges under one prefix, as one bracket list or as a run of "
+                   "words, compressed group text 990..2500 bytes incl. exactly 1023/1024/1025) whose contacted hosts "
+                   "are compared; expected = AST-level expansion "
                    "(Python) = string-level expansion (Lean spec); non-trivial = expansion has >= 2 hosts and the text "
                    ">= 1 bracket group; distinct = distinct rendered text"}
     dist = {"wellformed": 0, "valid-from-malformed-stream": 0, "exhaustive": 0, "corpus": 0, "cli": 0, "nth": 0,
@@ -275,6 +278,61 @@ def nth_check(ctx, hl, cases, dist):
                              (q[:k + 1][-2:], ans[k:k + 1], mm[k:k + 1], (crash or "")[-300:]), {"ops": q})
 
 
+def group_text_len(pre, items):
+    """length of `pre[a,b-c,..]`, the text of ONE bracketed group (what hostlist_shift_range /
+    hostlist_ranged_string write into their fixed buffers)"""
+    return len(pre) + 2 + sum(len(x) for x in items) + max(0, len(items) - 1)
+
+
+def gen_longgroup(rng, target=None):
+    """(text, expected hosts): MANY disjoint numbers / small ranges under ONE prefix, so that the compressed group
+    text `pre[..]` is long (around and beyond 1 KiB: fixed 1024-byte buffers in hostlist.c render a group) --
+    as one bracket list, or as a run of comma words with the same prefix; sometimes other words around it"""
+    pre = rng.choice([b"node", b"n", b"rack-", b"x0y", b"h"])
+    style = "wide" if target is not None else rng.choice(["odd", "odd", "wide", "pairs", "padded", "mixedwidth"])
+    want = target if target is not None else rng.choice([990, 1010, 1020, 1023, 1024, 1025, 1030, 1100, 1600, 2500])
+    items, hosts = [], []
+    v = rng.choice([1, 1, 3, 100, 1000, 9990])
+    width = rng.choice([3, 4, 5]) if style == "padded" else 0
+
+    def add(t, names):
+        items.append(t)
+        hosts.extend(names)
+
+    while group_text_len(pre, items) < want - (12 if target is not None else 0) and len(hosts) < 3000:
+        if style in ("odd", "padded"):
+            t = b"%0*d" % (width, v)
+            add(t, [pre + t])
+            v += 2
+        elif style == "wide":
+            t = b"%d" % v
+            add(t, [pre + t])
+            v += rng.choice([2, 3, 7, 11, 101])
+        elif style == "pairs":
+            add(b"%d-%d" % (v, v + 1), [pre + b"%d" % v, pre + b"%d" % (v + 1)])
+            v += 3
+        else:
+            w = rng.choice([0, 0, 2, 3, 4]) if v < 90 else 0
+            t = b"%0*d" % (w, v)
+            add(t, [pre + t])
+            v += 2
+    if target is not None:
+        # one last number with exactly the digits that make the group text `want` bytes long
+        need = want - group_text_len(pre, items) - 1
+        if need >= len(b"%d" % v) + 1:
+            t = b"%d" % (10 ** (need - 1) + 7)
+            add(t, [pre + t])
+    form = rng.choice(["bracket", "bracket", "bracket", "words"])
+    if form == "bracket":
+        s = pre + b"[" + b",".join(items) + b"]"
+    else:
+        s = b",".join(pre + (b"[" + t + b"]" if b"-" in t else t) for t in items)
+    if rng.random() < 0.4:
+        s = b"alpha," + s + b",omega7"
+        hosts = [b"alpha"] + hosts + [b"omega7"]
+    return s, hosts, group_text_len(pre, items)
+
+
 def cli_check(ctx, hl, dist, cov, only=None):
     """the pdsh binary: -Q listing and the hosts actually contacted, against expand₂"""
     rng = ctx.rng
@@ -286,17 +344,26 @@ def cli_check(ctx, hl, dist, cov, only=None):
     cases = []
     fixed = [b"foo[1-2]-[0-1]", b"foo[9-11,007]-[0-1] 12 a3", b"n[08-11]", b"a[1-3],a[2-4]", b"foo1,foo01,foo001"]
     for s in ([only] if only is not None else fixed):
-        cases.append((s, None))
+        cases.append((s, None, only is not None and len(only) > 900))
     while len(cases) < n and only is None:
         words, s = gen.expr()
         e2 = expand2(words)
         if len(s) > 3000 or sum(len(x) + 1 for x in e2) > 900 or any(len(x) > 200 for x in e2):
             continue
-        cases.append((s, e2))
+        cases.append((s, e2, False))
+    if only is None:
+        # long groups: the compressed text of one bracketed group around / beyond 1 KiB (contacted hosts are compared;
+        # the -Q listing is cut at 1 KiB by pdsh itself, its complete names are compared as a prefix)
+        dist["cli-longgroup"] = {}
+        for k in range(8 if ctx.quick() else 120):
+            s, e2, glen = gen_longgroup(rng, target=(1023, 1024, 1025)[k] if k < 3 else None)
+            cases.append((s, e2, True))
+            b = "<1000" if glen < 1000 else "1000-1023" if glen <= 1023 else "1024-1100" if glen <= 1100 else ">1100"
+            dist["cli-longgroup"][b] = dist["cli-longgroup"].get(b, 0) + 1
     strings = [c[0] for c in cases]
     spec = hl.spec(strings)
     model = hl.model(["cli %s %d" % (hx(s), LIMIT) for s in strings])
-    for (s, e2, ), sp, m in zip(cases, spec, model):
+    for (s, e2, longgroup), sp, m in zip(cases, spec, model):
         v = parse_spec(sp)
         case = {"expr": s.decode("latin1"), "expr_hex": hx(s), "origin": "cli"}
         if not v["ok"] or v["note64"] or v["hosts2"] is None:
@@ -330,14 +397,23 @@ def cli_check(ctx, hl, dist, cov, only=None):
                             else "valid-rejected:" + cls)
             ctx.offender(sig, "pdsh -Q -w on a well-formed expression: %s" % cls, dict(case, pdsh=cls))
             continue
-        if hosts != e2 and not trunc:
+        if trunc and hosts:
+            # pdsh cuts the listing: the complete names before the cut are a prefix of the expansion
+            hosts = hosts[:-1]
+            if hosts != e2[:len(hosts)]:
+                i, a, b = first_diff(hosts, e2[:len(hosts)])
+                ctx.offender(seq_signature(s, "cli", hosts, e2[:len(hosts)]),
+                             "pdsh -Q -w (cut listing) shows %r where the expansion has %r (position %d)" %
+                             (show(a), show(b), i), dict(case, position=i, impl_name=show(a), expected_name=show(b)))
+        elif hosts != e2 and not trunc:
             i, a, b = first_diff(hosts, e2)
             ctx.offender(seq_signature(s, "cli", hosts, e2),
                          "pdsh -Q -w lists %r where the expansion has %r (position %d; %d vs %d hosts)" %
                          (show(a), show(b), i, len(hosts), len(e2)),
                          dict(case, position=i, impl_name=show(a), expected_name=show(b)))
-        if len(e2) <= 12:
+        if len(e2) <= 12 or longgroup:
             ccls, contacted = cli.contact(s.decode("latin1"))
+            dist["cli-contacted-hosts"] = dist.get("cli-contacted-hosts", 0) + len(e2)
             if ccls == "ok" and mnext is not None and contacted != mnext:
                 ctx.disagreement("hl model (cli) vs pdsh -R exec", "expr %r: pdsh contacts %s model %s" %
                                  (s[:200], contacted[:6], mnext[:6]), case)
